@@ -410,6 +410,8 @@ func actRespond(reqHex string, signer sdk.AccAddress, kind string) Action {
 		out = outputBad
 	case "noout":
 		res, out = result400, ""
+	case "utf8": // bytes that are not valid UTF-8 inside JSON strings of the result and the output
+		res, out = "{\"code\":200,\"message\":\"ok\xfe\"}", "{\"header\":{},\"body\":{\"x\":\"\xff\"}}"
 	}
 	return Action{Name: fmt.Sprintf("respond(%s,%s,%s)", shortReq(reqHex), nameOf(signer), kind), Kind: "respond", Req: reqHex, Signer: signer, RespKind: kind, Tmpl: -1,
 		Msg: st.NewMsgRespondService(mustHex(reqHex), signer, res, out)}
